@@ -93,6 +93,10 @@ fn set_budget(n: u64) {
 #[cfg(not(num_bigint_verif))]
 fn set_budget(_n: u64) {}
 
+fn rng_consumed(r: &Stream) -> usize {
+    r.consumed as usize
+}
+
 pub fn run(op: &str, t: &[&str], v: &[Val], out: &mut Out) -> bool {
     if op != "rand" {
         return false;
@@ -123,6 +127,32 @@ pub fn run(op: &str, t: &[&str], v: &[Val], out: &mut Out) -> bool {
             "range_u_inc" => { out.call(|| r.gen_range(v[3].u().clone()..=v[4].u().clone())); }
             "range_i" => { out.call(|| r.gen_range(v[3].i().clone()..v[4].i().clone())); }
             "range_i_inc" => { out.call(|| r.gen_range(v[3].i().clone()..=v[4].i().clone())); }
+            // cover_i <n> : the set of values gen_bigint(n) produces over every stream whose first three words have
+            // each of the 8 top-3-bit patterns (n <= 3), sorted
+            "cover_i" => {
+                let n: u64 = pnum(t[3]);
+                let mut seen: Vec<BigInt> = vec![];
+                let ok = guard(|| {
+                    for pat in 0..512u32 {
+                        let mut script = vec![];
+                        for k in 0..3 {
+                            script.extend_from_slice(&(((pat >> (3 * k)) & 7) << 29).to_le_bytes());
+                        }
+                        let mut s = Stream::parse(&format!("x{}:c", script.iter().map(|b| format!("{:02x}", b)).collect::<String>()));
+                        let x = s.gen_bigint(n);
+                        if !seen.contains(&x) {
+                            seen.push(x);
+                        }
+                    }
+                });
+                if ok.is_none() {
+                    out.push("P");
+                }
+                seen.sort();
+                for x in seen {
+                    out.call(|| x.clone());
+                }
+            }
             // two draws from one stream: second result depends on exactly how much the first consumed
             "twice_u" => {
                 let n: u64 = pnum(t[3]);
@@ -132,8 +162,20 @@ pub fn run(op: &str, t: &[&str], v: &[Val], out: &mut Out) -> bool {
             _ => out.push("UNKNOWN"),
         }
     }
-    set_budget(u64::MAX);
     out.push(&format!("n{}", rng.consumed));
+    // RandomBits must be the same function of the stream as gen_biguint / gen_bigint: the reference draw from an
+    // identical fresh stream, and how much of it that consumed
+    if f.starts_with("rbits") {
+        let mut r2 = Stream::parse(t[2]);
+        let n: u64 = pnum(t[3]);
+        if f == "rbits_i" {
+            out.named("ref", || r2.gen_bigint(n));
+        } else {
+            out.named("ref", || r2.gen_biguint(n));
+        }
+        out.push(&format!("refn=n{}", rng_consumed(&r2)));
+    }
+    set_budget(u64::MAX);
     if last_panic().contains("step budget exhausted") {
         out.push("BUDGET");
     }
